@@ -13,6 +13,10 @@ var VerifPassHook func(s *Scheduler, g *ExecutionGraph)
 // VerifStatusHook is called by UpdateStatus before the new status becomes visible.
 var VerifStatusHook func(stage *Stage, status int32)
 
+// VerifStatusStoredHook is called by UpdateStatus right after the new status has become visible
+// (a hook that blocks here holds the calling goroutine at that point).
+var VerifStatusStoredHook func(stage *Stage, status int32)
+
 // VerifScheduleHook is called on entry to and return from Schedule.
 var VerifScheduleHook func(s *Scheduler, g *ExecutionGraph, enter bool, err error)
 
@@ -33,6 +37,12 @@ func verifPass(s *Scheduler, g *ExecutionGraph) {
 
 func verifStatus(stage *Stage, status int32) {
 	if h := VerifStatusHook; h != nil {
+		h(stage, status)
+	}
+}
+
+func verifStatusStored(stage *Stage, status int32) {
+	if h := VerifStatusStoredHook; h != nil {
 		h(stage, status)
 	}
 }
